@@ -157,6 +157,9 @@ impl Gossip {
         if let Some((to_gossip_tx, from_gossip_tx, guard)) = self.senders.read().await.get(&topic)
             && guard.has_subscriptions()
         {
+            #[cfg(p2panda_p2panda_verif)]
+            crate::verif_gate::gate("gossip_stream_after_check").await;
+
             return Ok(GossipHandle::new(
                 topic,
                 max_message_size,
@@ -165,6 +168,9 @@ impl Gossip {
                 guard.clone(),
             ));
         }
+
+        #[cfg(p2panda_p2panda_verif)]
+        crate::verif_gate::gate("gossip_stream_before_subscribe").await;
 
         // If there's no active handle for this topic we join the overlay from scratch.
         let inner = self.inner.read().await;
